@@ -30,7 +30,7 @@ ASSUMPTIONS = ["reference evaluator harness/graphs.py:ref_eval for the isolation
 BOUNDS = {"quick": {"max_faults": 2, "generated_shapes_max_nodes": 4}, "thorough": {"max_faults": 3, "generated_shapes_max_nodes": 5}}
 CAP_S = {"quick": 150, "thorough": 1500}
 
-KINDS = ["skip", "content", "cpe", "timeout", "error", "uneq"]
+KINDS = ["skip", "content", "cpe", "timeout", "error", "uneq", "badstr", "blacklisted"]
 
 
 def SHAPES():
@@ -321,6 +321,8 @@ def check_case(case):
         return vio
     finally:
         g.cleanup()
+        from insights.core.blacklist import BLACKLISTED_SPECS
+        del BLACKLISTED_SPECS[:]
 
 
 def _kname(k, index):
@@ -358,9 +360,12 @@ def run_unit(unit, tier):
     base = SHAPES()[unit["shape"]]
     sites = fault_sites(base)
     maxf = BOUNDS[tier]["max_faults"]
+    if unit["observer"] != "none" and tier == "quick":
+        maxf = 1                 # quick: raising observers are combined with at most one component fault
     for k in range(0, maxf + 1):
+        kinds_k = KINDS if k <= 1 else KINDS[:6]       # the two exotic kinds (badstr, blacklisted) as single faults
         for where in itertools.combinations(sites, k):
-            for kinds in itertools.product(KINDS, repeat=k):
+            for kinds in itertools.product(kinds_k, repeat=k):
                 placement = list(zip(where, kinds))
                 nodes = apply_faults(base, placement)
                 case = {"shape": unit["shape"], "nodes": nodes, "store_skips": unit["store_skips"], "observer": unit["observer"]}
